@@ -66,9 +66,9 @@ def tagged_lines(text, tag):
             yield unescape_tla(line[len(pre):-3])
 
 
-def render_cfg(model, constants, extra_lines=()):
-    """MC cfg = committed template spec/<model>.cfg with CONSTANT values overridden."""
-    src = open(os.path.join(SPEC, model + ".cfg")).read().splitlines()
+def render_cfg(cfg, constants, extra_lines=()):
+    """MC cfg = committed template spec/<cfg>.cfg with CONSTANT values overridden."""
+    src = open(os.path.join(SPEC, cfg + ".cfg")).read().splitlines()
     out = []
     for ln in src:
         m = re.match(r"\s*CONSTANT\s+(\w+)\s*=\s*(.+)$", ln)
@@ -80,21 +80,22 @@ def render_cfg(model, constants, extra_lines=()):
     return "\n".join(out) + "\n"
 
 
-def run_mc(model, constants, workers=8, timeout=3600):
+def run_mc(model, constants, workers=8, timeout=3600, cfg=None):
     """Model-check spec/<model>.tla; returns dict(cases=path, stats...). Cached by spec hash + constants."""
-    key = hashlib.sha256((spec_hash() + model + json.dumps(constants, sort_keys=True)).encode()).hexdigest()[:16]
-    cdir = os.path.join(WORK, "cache", model + "-" + key)
+    cfg = cfg or model
+    key = hashlib.sha256((spec_hash() + model + cfg + json.dumps(constants, sort_keys=True)).encode()).hexdigest()[:16]
+    cdir = os.path.join(WORK, "cache", cfg + "-" + key)
     meta = os.path.join(cdir, "meta.json")
     if os.path.exists(meta):
         return json.load(open(meta))
     os.makedirs(cdir, exist_ok=True)
-    cfgname = "_%s_%s.cfg" % (model, key)
+    cfgname = "_%s_%s.cfg" % (cfg, key)
     cfgpath = os.path.join(SPEC, cfgname)
     with open(cfgpath, "w") as f:
-        f.write(render_cfg(model, constants))
+        f.write(render_cfg(cfg, constants))
     t0 = time.time()
     try:
-        r = java([], ["-workers", str(workers), "-coverage", "1", "-metadir", os.path.join(cdir, "md"), "-cleanup",
+        r = java([], ["-workers", str(workers), "-metadir", os.path.join(cdir, "md"), "-cleanup",
                       "-noGenerateSpecTE", "-config", cfgname, model + ".tla"], cwd=SPEC, timeout=timeout)
     finally:
         os.unlink(cfgpath)
@@ -116,12 +117,12 @@ def run_mc(model, constants, workers=8, timeout=3600):
                 continue
             seen.add(hid)
             case = json.loads(js)
-            case["id"] = model[3:].lower() + "-" + hid
+            case["id"] = cfg[3:].lower() + "-" + hid
             f.write(json.dumps(case, separators=(",", ":")) + "\n")
             ncases += 1
     # vacuity guard: every action of the model must have been taken
     never = re.findall(r"<(\w+) line \d+, col \d+ to line \d+, col \d+ of module \w+>: 0:0", outp)
-    res = dict(model=model, constants=constants, cases=cases_path, ncases=ncases, states=distinct,
+    res = dict(model=cfg, constants=constants, cases=cases_path, ncases=ncases, states=distinct,
                transitions=generated, mc_wall_s=round(time.time() - t0, 1), never_taken=never, key=key)
     if ncases == 0:
         raise ToolError("model %s exported no behaviour" % model)
